@@ -463,7 +463,25 @@ def overflow_arm_rule(F, R):
                         sw = j
                         break
             if sw is None:
-                continue            # handed to a combinator (ok_or_else / map …): the error/None is propagated, not answered
+                # handed to a combinator: `x.checked_abs().map_or_else(|| …, |v| …)` / unwrap_or_else — the closure that runs
+                # for None is the overflow exit; ok_or_else / map / `?` propagate the None and answer nothing themselves
+                comb = [cb2 for _, cb2 in fn.calls() if cb2["args"] and lib.TOK.findall(cb2["args"][0])[:1] == [d.group(0)]
+                        and re.search(r"\{impl Option<T>\}::(map_or_else|unwrap_or_else|or_else|map_or|unwrap_or)$", cb2["callee"])]
+                for cb2 in comb:
+                    n += 1
+                    cl = [t for t in cb2["targs"] if t.startswith("{closure@")]
+                    none_fn = F.fns.get(cl[0][len("{closure@"):-1]) if cl else None
+                    if cb2["callee"].endswith(("map_or", "unwrap_or")):
+                        computes = not str(cb2["args"][1]).startswith("const")
+                    else:
+                        computes = none_fn is not None and any(
+                            not re.search(r"::(clone|deref|drop|fmt|new_const|new_v1)$|^core::fmt::|^core::panicking", b3["callee"])
+                            for _, b3 in none_fn.calls())
+                    R.inst("C10.o", "%s / None closure of %s (line %s) computes or raises" % (fn.short(), m_.group(2), cb["line"]), bool(computes),
+                           "%s: when %s overflows (line %s) the default handed to %s answers without computing anything: the same "
+                           "constant for every overflowing operand" % (fn.short(), m_.group(2), cb["line"], lib.split_path(cb2["callee"])[-1]),
+                           fn.loc(cb["line"]))
+                continue
             am = lib.arm_map(fn, sw)
             none = am.get("None", am.get("_"))
             some = am.get("Some")
